@@ -155,6 +155,17 @@ func checkC07(c *Ctx, r *Report) {
 				isLE(args[1]), "byte order argument is binary.LittleEndian", "byte order argument is not binary.LittleEndian (the B2 header is little-endian)")
 		}
 	}
+	// the ByteOrder methods used directly (binary.LittleEndian.PutUint32 and friends) fix the byte
+	// order just as the order argument of binary.Read/Write does (ip_g7.go)
+	for _, fn := range c.SrcFuncs("lzhuf") {
+		for _, ci := range allCalls(fn) {
+			if order, is := g7ByteOrderCall(ci); is {
+				nBin++
+				r.Check("C07-layout", fnName(fn), callName(ci.Common())+" on "+order, c.pos(ci.Pos()),
+					order == "LittleEndian", "the method is called on binary.LittleEndian", "the method is not called on binary.LittleEndian (the B2 header is little-endian)")
+			}
+		}
+	}
 	if nBin < 4 {
 		r.Fail("C07-layout", "found %d binary.Read/Write calls in lzhuf, expected at least 4 (header read and write of crc and size)", nBin)
 	}
@@ -170,22 +181,25 @@ func checkC07(c *Ctx, r *Report) {
 			call, ok := v.(*ssa.Call)
 			return ok && callName(&call.Call) == "lzhuf.crc"
 		}
+		// the steps are roles (ip_g7.go): the size is ENCODED little-endian into a local scratch value
+		// (binary.Write into a bytes.Buffer, or LittleEndian.PutUint32 into a 4-byte array), and that
+		// scratch value / the compressed data are WRITTEN to the underlying writer by io.Copy, by a
+		// direct Write of their bytes, or by WriteTo
+		recv := wc.Params[0].Name()
+		out, data, size := recv+".w", recv+".buf", recv+".fileSize"
 		for _, ci := range callsTo(wc, false, "encoding/binary.Write") {
 			a := ci.Common().Args
-			if pathOf(a[0]) == "w.w" && dependsOn(a[2], isCrcCall) {
+			if pathOf(a[0]) == out && dependsOn(a[2], isCrcCall) {
 				crcWrite = ci
-			} else if pathOf(unwrap(a[2])) == "w.fileSize" {
-				sizeEnc, lengthAlloc = ci, unwrap(a[0])
 			}
 		}
-		for _, ci := range callsTo(wc, false, "io.Copy") {
-			a := ci.Common().Args
-			if pathOf(a[0]) != "w.w" {
-				continue
-			}
-			if lengthAlloc != nil && unwrap(a[1]) == lengthAlloc {
+		sizeEnc, lengthAlloc = g7SizeEncoding(wc, size)
+		for _, ci := range allCalls(wc) {
+			switch src := g7WrittenTo(ci, out); {
+			case src == nil:
+			case lengthAlloc != nil && g7BytesOf(src, lengthAlloc):
 				sizeWrite = ci
-			} else if pathOf(unwrap(a[1])) == "w.buf" {
+			case pathOf(unwrap(src)) == data || g7BytesOfPath(src, data):
 				dataCopy = ci
 			}
 		}
@@ -214,14 +228,11 @@ func checkC07(c *Ctx, r *Report) {
 				}
 				return false
 			})
-			bytesOf := func(path string) func(ssa.Value) bool {
-				return func(v ssa.Value) bool {
-					call, ok := v.(*ssa.Call)
-					return ok && callName(&call.Call) == "bytes.Buffer.Bytes" && pathOf(unwrap(call.Call.Args[0])) == path
-				}
-			}
-			hasSize := lengthAlloc != nil && dependsOn(crcCall.Call.Args[0], bytesOf(pathOf(lengthAlloc)))
-			hasData := dependsOn(crcCall.Call.Args[0], bytesOf("w.buf"))
+			// the size bytes: the contents of the scratch value (Bytes() of the buffer, a slice of the
+			// array), taken after the size was encoded into it
+			hasSize := lengthAlloc != nil && sizeEnc != nil && instrDominates(sizeEnc, crcCall) &&
+				dependsOn(crcCall.Call.Args[0], func(v ssa.Value) bool { return g7BytesOf(v, lengthAlloc) })
+			hasData := dependsOn(crcCall.Call.Args[0], func(v ssa.Value) bool { return g7BytesOfPath(v, data) })
 			if hasSize && hasData {
 				o.OK("argument of crc() depends on the bytes of the encoded size (%s) and on w.buf.Bytes()", derefPath(pathOf(lengthAlloc)))
 			} else {
